@@ -38,3 +38,21 @@ ASSUMPTIONS = {
     ],
     "C20": ["time.Since is monotonic within one process (bracketing oracle for IdGenerator)"],
 }
+
+# ---- C07 escape codecs ---------------------------------------------------------
+q, t = rapid_jobs(qshards=4, tshards=16, tscale=20)
+q["jobs"].append(dict(name="exh", mode="plain", run="^TestExhaustive$", shards=1, timeout=300))
+t["jobs"].append(dict(name="exh", mode="plain", run="^TestExhaustive$", shards=1, timeout=1200))
+add("C07", "c07", q, t)
+
+# ---- C17 rune-aware helpers ----------------------------------------------------
+q, t = rapid_jobs(qshards=4, tshards=16, tscale=20)
+t["jobs"].append(fuzz_job("FuzzStrs", 90))
+add("C17", "c17", q, t)
+
+# ---- C15 std re-implementations -----------------------------------------------
+q, t = rapid_jobs(qshards=4, tshards=16, tscale=20)
+t["jobs"].append(dict(name="ipv4all", mode="plain", run="^TestIPv4All$", shards=16, timeout=3000, env={"VERIF_NSHARDS": 16}))
+t["jobs"].append(fuzz_job("FuzzParseUint", 90))
+t["jobs"].append(fuzz_job("FuzzHex", 60))
+add("C15", "c15", q, t)
